@@ -1,13 +1,30 @@
 CHECK = {
     "level": "model_checking",
-    "technique": "explicit-state search to fixpoint over the real ByteBuffer (fields + memory image) in lock-step with a list model",
-    "rule": "explicit-state search: every operation of the alphabet applied to every reachable (size,used,offset,image) state; a case is one transition; non-trivial = everything but reset of an already empty buffer; plus the full set-up argument matrix",
-    "assumptions": ["octet alphabet {00,a1,b2}; buffer sizes up to the stated bound (small-scope)",
-                    "ASan red zones around exact-size heap blocks observe out-of-bounds accesses",
-                    "consume_at_most(0) on an empty buffer: the statement does not decide between failing and delivering zero octets; both are accepted, the buffer must be unchanged"],
+    "technique": "explicit-state search to fixpoint over the real ByteBuffer (fields + memory image) in lock-step with a list model; "
+                 "the same model drives (a) far operand lengths (boundary family up to SIZE_MAX) in every reached state, "
+                 "(b) the set-up argument matrix on descriptors with a history (zeroed / 0xff-filled / nulled / in use with every (used, offset)) "
+                 "followed by every operation once on the re-used descriptor (differential against a fresh descriptor), "
+                 "(c) bounded-exhaustive boundary families on buffers whose size straddles 2^8, 2^16 (exact heap blocks; thorough also 2^7, 2^15) "
+                 "and 2^31, 2^32 (lazily backed 4 GiB mapping, states installed with byte_buffer_set)",
+    "rule": "explicit-state search: every operation of the alphabet applied to every reachable (size,used,offset,image) state; a case is one transition; "
+            "non-trivial = everything but reset of an already empty buffer; far-operand cases: one add/consume/consume_at_most with a far length on a reached state; "
+            "set-up cases: one set/use/space call on a descriptor with the stated history (an accepted one is followed by every operation of the alphabet, each from a copy of the resulting descriptor); "
+            "medium/big cases: byte_buffer_set to a boundary state, then one operation",
+    "assumptions": ["octet alphabet {00,a1,b2}; buffer sizes up to the stated bound (small-scope), plus the boundary families named in the bound (values next to 2^7, 2^8, 2^15, 2^16, 2^31, 2^32, 2^63, 2^64)",
+                    "ASan red zones around exact-size heap blocks observe out-of-bounds accesses (small and medium scope); on the 4 GiB mapping octets are compared in windows of 96 octets around 0, 2^16, 2^31, 2^32 instead",
+                    "consume_at_most(0) on an empty buffer: the statement does not decide between failing and delivering zero octets; both are accepted, the buffer must be unchanged",
+                    "a call whose operand exceeds size+1 is handed source/destination blocks smaller than the operand says: add/consume must fail without change, so they are never read or written; consume_at_most gets room for everything that is unread plus 8 octets",
+                    "'fails without change' / 'refuses' is read as: negative return, all four descriptor fields and the whole memory image unchanged (HARNESS-GUIDE oracle discipline); after an accepted operation only the filled region [0,used) is compared (the statement leaves free room open, except for clear)",
+                    "the descriptor is a flat public struct (BYTE_BUFFER_INIT initialises it member by member): the re-use family copies an accepted descriptor and re-points `data` at an exact-size block per operation",
+                    "on the 4 GiB mapping only operations that move at most 8 octets or have to refuse are run (no clear; rewind only with at most 8 unread octets and offset > 0 or used <= 8); only the pages under the compared windows are accessible: a call that touches any other page of the mapping (work in proportion to the buffer size, which the statement does not forbid) is abandoned as undecided (outcome big-undecided, run marked non-exhaustive), never reported",
+                    "the image an operation starts from is the one byte_buffer_set left: set-up must keep the octets it is told are filled, what it does to the free room is open",
+                    "sizes the harness cannot back with memory (> 2^32+8) are not offered as buffer sizes; larger values appear only as operands/used/offset that must be refused"],
     "harnesses": [{
         "name": "c18_bytebuffer", "src": "harness/c18_bytebuffer.c", "shape": "estate",
-        "lib": ["src/byte-buffer.c"], "shards": 8, "opt": "-O2", "min_outcomes": 10,
-        "require_outcomes": {"any": ["rewind-moves", "add-refused", "consume-refused", "atmost-short", "set-refused"]},
+        "lib": ["src/byte-buffer.c"], "shards": 8, "opt": "-O2", "min_outcomes": 20,
+        "require_outcomes": {"any": ["rewind-moves", "add-refused", "consume-refused", "atmost-short", "set-refused",
+                                     "far-add-refused", "far-consume-refused", "far-atmost-short", "far-atmost-empty",
+                                     "reuse-set-refused", "reuse-set-ok", "dirty-set-refused", "dirty-set-ok",
+                                     "medium-add-ok", "medium-add-refused", "medium-consume-ok", "medium-consume-refused", "medium-rewind"]},
     }],
 }
